@@ -55,7 +55,9 @@ NUM_POOL = [Decimal(0.1), Decimal(0.7), Decimal(0.3), "0.1", "0.7", 0, 1, -1, 2,
             Decimal("0.0009995"), Decimal("12.345"), Decimal("-99.95"), Decimal("0.05"), Decimal("0.15"), Decimal("2.5"), Decimal("7"),
             Decimal("1E+3"), Decimal("1.2E+2"), Decimal("0.995"), Decimal("-2.5"), Decimal("10.0"), Decimal("0.10"),
             "12", "99.95", "999.5", "1.5", "-7", "0.15", "100"]
-STR_POOL = ["", "a", "ab", "abc", "abcd", "abcde", "abcdef", "aaaa", "é日本x", b"abcd", b"ab", 12345, 1.5]
+STR_POOL = ["", "a", "ab", "abc", "abcd", "abcde", "abcdef", "aaaa", "é日本x", b"abcd", b"ab", 12345, 1.5,
+            # decomposed text: a combining mark sits exactly at index 1 / 2 / 3 / 4 (a cut there separates letter and accent)
+            "e\u0301abc", "ae\u0301bc", "abe\u0301c", "cafe\u0301s", "a\u0301\u0302bcd", "\U0001F469\u200D\U0001F4BBxyz", "ab\ud83d"]
 SEQ_POOL = [[], [1], [1, 2], [1, 2, 3], [1, 2, 3, 4], [1, 1], [1, 1, 2, 2, 3], [1, 1.0, True], ["a", "a", "b"], (1, 2, 3, 4), (1, 1),
             [[1], [1]], "1,2,3,4", "1,1,2", {1, 2, 3}, deque([1, 1, 2]),
             # equal items of different Python types (hashable next to unhashable, an enum member next to its value)
